@@ -79,6 +79,7 @@ func (g *genState) sweepCase(e *entry, m sweepMode, emit bool) {
 		}
 		g.hashOracle(e, o.obj, read, re, via)
 		g.ownershipOracle(e, viaByName(e, via), read)
+		g.capOracle(e, o.obj, read, via)
 		if !bytes.Equal(re, read) {
 			cl := classify(e, read, re)
 			what := "noncanonical-accept:" + cl
